@@ -296,8 +296,8 @@ func renderBody(n *Node, info *opInfo, full, colon bool) string {
 		return renderKid(n, info, 0, full, false) + " ? " + renderKid(n, info, 1, full, false) + " : " + renderKid(n, info, 2, full, false)
 	case kUnary:
 		o := renderKid(n, info, 0, full, colon)
-		if strings.HasPrefix(o, info.Sym) {
-			return info.Sym + " " + o // keep "- -", "& &" from fusing into "--", "&&"
+		if (info.Sym == "-" || info.Sym == "&") && strings.HasPrefix(o, info.Sym) {
+			return info.Sym + " " + o // keep "- -", "& &" from fusing into the tokens "--", "&&"
 		}
 		return info.Sym + o
 	case kPostfix:
